@@ -4,7 +4,7 @@
     Re-checked on every run against gen/HandlesGen.v and gen/Counters.v, both
     regenerated from /repo/src/rc.rs. *)
 From Coq Require Import NArith Bool Lia List. Import ListNotations.
-From CR Require Import Base Atomic Machine.
+From CR Require Import Base Atomic Machine Tokens.
 From Gen Require Import Counters CountersProofs HandlesGen.
 Local Open Scope N_scope.
 
@@ -202,6 +202,25 @@ Theorem new_box_translated p :
   links (new_box p) = Some [] /\ value (new_box p) = Some p /\ freed (new_box p) = false.
 Proof. repeat split; reflexivity. Qed.
 
+(** C05 about the translated source: [Weak::upgrade] returns a handle exactly
+    for an object whose value has not been destroyed ([live]: a positive count,
+    not the marker), and then leaves one more strong handle *)
+Theorem translated_upgrade_iff_alive b : repr_ok b ->
+  ((exists c, g_weak_upgrade (cells_of b) = Ret true c) <-> live b = true) /\
+  (forall c, g_weak_upgrade (cells_of b) = Ret true c ->
+     exists n, strong b = Cnt n /\ c = cells_of (with_strong b (Cnt (n + 1)))).
+Proof.
+  intros Hr. rewrite (weak_upgrade_translated b Hr). unfold live.
+  destruct (strong b) as [n|] eqn:E; cbn [is_dead].
+  - destruct (N.eqb_spec n 0) as [E0|E0].
+    + subst n. split; [split; [intros [c H]; discriminate|discriminate]|intros c H; discriminate].
+    + split.
+      * split; [intros _; apply N.ltb_lt; lia|intros _; eexists; reflexivity].
+      * intros c H. injection H as <-. exists n. split; reflexivity.
+  - split; [split; [intros [c H]; discriminate|discriminate]|intros c H; discriminate].
+Qed.
+
+Print Assumptions translated_upgrade_iff_alive.
 Print Assumptions new_box_translated.
 Print Assumptions rc_is_unique_translated.
 Print Assumptions act_get_mut_translated.
